@@ -1,5 +1,5 @@
 (* Lemmas for C16 (snapshot directories are crash-atomic). *)
-From Coq Require Import List NArith Bool Lia.
+From Coq Require Import List NArith Bool Lia Permutation.
 From DB Require Import Model.FS Model.SnapshotDir.
 Import ListNotations.
 Open Scope N_scope.
@@ -59,7 +59,17 @@ Proof.
 Qed.
 
 (* ---------------------------------------------------------------------- *)
-(* the invariant *)
+(* the invariant, for a notion [Vok] of "complete snapshot file content":
+   instantiated below with [valid_snap] (any complete file, shrunk ones included)
+   and with [full_snap] (complete and carrying the state machine's image) *)
+Section Validity.
+Variable Vok : data -> bool.
+Hypothesis HV1 : forall d, Vok d = true -> valid_snap d = true.
+Hypothesis HV2 : forall n, Vok (T_HDR :: repeat T_BODY n ++ [T_TAIL]) = true.
+
+(* a shrunk / a metadata-only file counts as complete content (not for [full_snap]) *)
+Definition shrunk_ok : Prop := Vok (T_HDR :: [T_EMPTY] ++ [T_TAIL]) = true.
+Definition dummy_ok : Prop := Vok (T_HDR :: [T_DUMMY] ++ [T_TAIL]) = true.
 
 (* a durable file name is the volatile one, or the node is unbound, or the
    node is a shrunk file that was renamed over the snapshot file *)
@@ -77,7 +87,8 @@ Definition dK (o : dobj) : Prop :=
 Definition fgood (i : N) (l : list fobj) : Prop :=
   Exists (fun f => f_dn f = Some (FSnap i)) l /\
   Exists (fun f => f_vn f = Some (FSnap i)) l /\
-  Forall (fun f => (f_vn f = Some (FSnap i) \/ f_dn f = Some (FSnap i)) -> valid_snap (f_dd f) = true) l /\
+  Forall (fun f => ((f_vn f = Some (FSnap i) \/ f_dn f = Some (FSnap i)) -> Vok (f_dd f) = true) /\
+                   (f_vn f = Some (FSnap i) -> f_vd f = f_dd f)) l /\
   Forall (fun f => ((f_vn f = Some FFlag \/ f_dn f = Some FFlag) -> f_dd f = flag_data i) /\
                    (f_vn f = Some FFlag -> f_vd f = flag_data i)) l.
 
@@ -111,7 +122,7 @@ Definition allowed (s : state) (o : op) : Prop :=
       exists i, d = DFinal i /\ a = FShrunk i /\ b = FSnap i /\
         Forall (fun o => d_vn o = Some d ->
                   Exists (fun f => f_vn f = Some a) (d_files o) /\
-                  Forall (fun f => f_vn f = Some a -> valid_snap (f_dd f) = true) (d_files o)) (st_fs s)
+                  Forall (fun f => f_vn f = Some a -> Vok (f_dd f) = true /\ f_vd f = f_dd f) (d_files o)) (st_fs s)
   | OFs (FRemove d f) => match d with DFinal _ => f = FFlag | _ => True end
   | OFs (FRemoveAll d) => match d with DFinal j => j <> st_rec s | _ => True end
   | ORecord i =>
@@ -149,7 +160,8 @@ Proof. intros. rewrite Forall_forall in *. auto. Qed.
 (* inside one directory *)
 
 Definition cF (i : N) (f : fobj) : Prop :=
-  (f_vn f = Some (FSnap i) \/ f_dn f = Some (FSnap i)) -> valid_snap (f_dd f) = true.
+  ((f_vn f = Some (FSnap i) \/ f_dn f = Some (FSnap i)) -> Vok (f_dd f) = true) /\
+  (f_vn f = Some (FSnap i) -> f_vd f = f_dd f).
 Definition cG (i : N) (f : fobj) : Prop :=
   ((f_vn f = Some FFlag \/ f_dn f = Some FFlag) -> f_dd f = flag_data i) /\
   (f_vn f = Some FFlag -> f_vd f = flag_data i).
@@ -220,14 +232,18 @@ Proof. intros. unfold f_unbind. destruct (f_is (f_vn f) n); reflexivity. Qed.
 Lemma unbind_vn_cases : forall n f, f_vn (f_unbind n f) = None \/ f_vn (f_unbind n f) = f_vn f.
 Proof. intros. unfold f_unbind. destruct (f_is (f_vn f) n); simpl; auto. Qed.
 
-Lemma cF_unbind : forall i n f, cF i f -> cF i (f_unbind n f).
-Proof.
-  intros i n f H. unfold cF in *. rewrite unbind_dn, unbind_dd.
-  destruct (unbind_vn_cases n f) as [E|E]; rewrite E; intros [A|A]; try discriminate; auto.
-Qed.
-
 Lemma unbind_vd : forall n f, f_vd (f_unbind n f) = f_vd f.
 Proof. intros. unfold f_unbind. destruct (f_is (f_vn f) n); reflexivity. Qed.
+
+Lemma cF_unbind : forall i n f, cF i f -> cF i (f_unbind n f).
+Proof.
+  intros i n f [H1 H2]. unfold cF in *. rewrite unbind_dn, unbind_dd, unbind_vd.
+  destruct (unbind_vn_cases n f) as [E|E]; rewrite E; split.
+  - intros [A|A]; try discriminate; auto.
+  - discriminate.
+  - auto.
+  - auto.
+Qed.
 
 Lemma cG_unbind : forall i n f, cG i f -> cG i (f_unbind n f).
 Proof.
@@ -260,7 +276,7 @@ Lemma fgood_create : forall i j l, fgood i l -> fgood i (fl_create (FShrunk j) l
 Proof.
   intros i j l H. unfold fl_create. apply fgood_cons.
   - apply fgood_unbind; [discriminate | exact H].
-  - intros [A|A]; simpl in A; discriminate.
+  - split; [intros [A|A]; simpl in A; discriminate | simpl; discriminate].
   - split; [intros [A|A]; simpl in A; discriminate | simpl; discriminate].
 Qed.
 
@@ -269,8 +285,8 @@ Lemma fgood_vd : forall i j (w : data -> data) l,
   fgood i l ->
   fgood i (map (fun o => if f_is (f_vn o) (FShrunk j) then mkF (f_vn o) (f_dn o) (w (f_vd o)) (f_dd o) else o) l).
 Proof.
-  intros i j w l H. apply fgood_map; auto; intros f _; destruct (f_is (f_vn f) (FShrunk j)) eqn:E; simpl; auto.
-  apply f_is_eq in E. intros [C1 C2]. split; simpl; auto. intros X. congruence.
+  intros i j w l H. apply fgood_map; auto; intros f _; destruct (f_is (f_vn f) (FShrunk j)) eqn:E; simpl; auto;
+  apply f_is_eq in E; intros [C1 C2]; split; simpl; auto; intros X; congruence.
 Qed.
 
 Lemma fK_vd : forall (p : fobj -> bool) (w : data -> data) l,
@@ -284,7 +300,7 @@ Proof.
   - intros f _ E. destruct (f_is (f_vn f) (FShrunk j)); simpl; auto.
   - intros f _ E. destruct (f_is (f_vn f) (FShrunk j)); simpl; auto.
   - intros f Hf C. destruct (f_is (f_vn f) (FShrunk j)) eqn:E; auto.
-    apply f_is_eq in E. unfold cF. simpl. intros [A|A]; [congruence|].
+    apply f_is_eq in E. unfold cF. simpl. split; [|intros X; congruence]. intros [A|A]; [congruence|].
     rewrite Forall_forall in K. destruct (K f Hf _ A) as [B|[B|[k [B _]]]]; congruence.
   - intros f Hf C. destruct (f_is (f_vn f) (FShrunk j)) eqn:E; auto.
     apply f_is_eq in E. unfold cG. simpl. split; [|intros X; congruence]. intros [A|A]; [congruence|].
@@ -305,7 +321,7 @@ Lemma fgood_syncdir : forall i l, fgood i l -> fgood i (fl_syncdir l).
 Proof.
   intros i l (Ed & Ev & F & G). unfold fl_syncdir. apply fgood_filter_alive. rewrite fgood_unfold.
   rewrite !Exists_map_iff, !Forall_map_iff. simpl. repeat split; auto.
-  - eapply Forall_impl_in; [exact F|]. intros f _ C. unfold cF in *. simpl. intros [A|A]; auto.
+  - eapply Forall_impl_in; [exact F|]. intros f _ [C1 C2]. unfold cF in *. simpl. split; auto. intros [A|A]; auto.
   - eapply Forall_impl_in; [exact G|]. intros f _ [C1 C2]. unfold cG in *. simpl. split; auto. intros [A|A]; auto.
 Qed.
 
@@ -329,7 +345,7 @@ Qed.
 Lemma fgood_rename : forall i l,
   Forall fK l -> fgood i l ->
   Exists (fun f => f_vn f = Some (FShrunk i)) l ->
-  Forall (fun f => f_vn f = Some (FShrunk i) -> valid_snap (f_dd f) = true) l ->
+  Forall (fun f => f_vn f = Some (FShrunk i) -> Vok (f_dd f) = true /\ f_vd f = f_dd f) l ->
   fgood i (fl_rename (FShrunk i) (FSnap i) l).
 Proof.
   intros i l K (Ed & Ev & F & G) Ex Va. unfold fl_rename. apply fgood_filter_alive. rewrite fgood_unfold.
@@ -339,7 +355,7 @@ Proof.
   - rewrite Exists_exists in *. destruct Ex as [f [Hf P]]. exists f. split; auto.
     apply f_is_eq in P. rewrite P. reflexivity.
   - rewrite Forall_forall in *. intros f Hf. destruct (f_is (f_vn f) (FShrunk i)) eqn:E.
-    + apply f_is_eq in E. unfold cF. simpl. intros _. apply Va; auto.
+    + apply f_is_eq in E. unfold cF. simpl. split; intros _; apply Va; auto.
     + apply cF_unbind. exact (F f Hf).
   - rewrite Forall_forall in *. intros f Hf. destruct (f_is (f_vn f) (FShrunk i)) eqn:E.
     + apply f_is_eq in E. unfold cG. simpl. split; [|discriminate]. intros [A|A]; [discriminate|].
@@ -360,7 +376,7 @@ Proof.
   assert (E : Exists (fun x => f_dn x = Some (FSnap i)) (filter (fun o => is_some (f_dn o)) l)).
   { apply Exists_filter_s. rewrite Exists_exists in *. destruct Ed as [f [Hf P]]. exists f. rewrite P. auto. }
   repeat split; auto.
-  - apply Forall_filter_w. eapply Forall_impl_in; [exact F|]. intros f _ C. unfold cF in *. simpl. intros [A|A]; auto.
+  - apply Forall_filter_w. eapply Forall_impl_in; [exact F|]. intros f _ [C1 C2]. unfold cF in *. simpl. split; auto. intros [A|A]; auto.
   - apply Forall_filter_w. eapply Forall_impl_in; [exact G|]. intros f _ [C1 C2]. unfold cG in *. simpl. split; auto. intros [A|A]; auto.
 Qed.
 
@@ -878,7 +894,6 @@ Proof.
 Qed.
 
 (* ---- listing ---- *)
-From Coq Require Import Permutation.
 
 Lemma vnames_in : forall n l, In n (vnames l) <-> exists o, In o l /\ d_vn o = Some n.
 Proof.
@@ -938,7 +953,7 @@ Proof.
   - apply existsb_exists. rewrite Exists_exists in Ev. destruct Ev as [f [Hf P]]. exists f. split; auto. apply f_is_eq; auto.
   - apply forallb_forall. intros f Hf. rewrite Forall_forall in F. specialize (F f Hf).
     destruct (f_is (f_vn f) (FSnap i)) eqn:E1; destruct (f_is (f_dn f) (FSnap i)) eqn:E2; simpl; auto;
-      apply F; try (left; apply f_is_eq; assumption); right; apply f_is_eq; assumption.
+      apply HV1; apply F; try (left; apply f_is_eq; assumption); right; apply f_is_eq; assumption.
 Qed.
 
 Lemma kept_clean : forall s, Good s -> Forall (kept (st_rec s)) (st_fs s) -> cleanb s = true.
@@ -984,7 +999,7 @@ Proof.
   intros s [[HI HR] _] NZ. specialize (HR NZ). rewrite Exists_exists in HR. destruct HR as [o [Ho [V D]]].
   exists o. repeat split; auto. rewrite Forall_forall in HI. destruct (HI o Ho) as (_ & _ & GD).
   destruct (GD _ (or_introl V)) as (Ed & _ & F & _). rewrite Exists_exists in Ed. destruct Ed as [f [Hf P]].
-  exists f. repeat split; auto. rewrite Forall_forall in F. apply (F f Hf). auto.
+  exists f. repeat split; auto. rewrite Forall_forall in F. apply HV1. apply (F f Hf). auto.
 Qed.
 
 Lemma guarded_recorded_implies_complete : forall ops k,
@@ -1313,14 +1328,16 @@ Lemma Db_syncfile : forall f n fl, Db f fl -> Db f (fl_syncfile n fl).
 Proof. intros. unfold fl_syncfile. apply Db_names; auto. intros x. destruct (f_is (f_vn x) n); auto. Qed.
 
 Lemma gen_ok_of_Tr : forall i v fl,
-  Tr (FSnap i) v v fl -> Db (FSnap i) fl -> valid_snap v = true -> gen_ok i fl.
+  Tr (FSnap i) v v fl -> Db (FSnap i) fl -> Vok v = true -> gen_ok i fl.
 Proof.
   intros i v fl [E F] [DE DF] VS. split; [|split].
   - rewrite Exists_exists in *. destruct DE as [x [Hx [_ D]]]. eauto.
   - exact E.
-  - rewrite Forall_forall in *. intros x Hx [A|A].
-    + destruct (F x Hx A) as [_ ->]. exact VS.
-    + destruct (F x Hx (DF x Hx A)) as [_ ->]. exact VS.
+  - rewrite Forall_forall in *. intros x Hx. split.
+    + intros [A|A].
+      * destruct (F x Hx A) as [_ ->]. exact VS.
+      * destruct (F x Hx (DF x Hx A)) as [_ ->]. exact VS.
+    + intros A. destruct (F x Hx A) as [-> ->]. reflexivity.
 Qed.
 
 Lemma cG_of_Tr : forall i fl,
@@ -1367,12 +1384,15 @@ Proof.
   destruct G as (Ed & Ev & F). repeat split.
   - apply Exists_cons_tl; exact Ed.
   - apply Exists_cons_tl; exact Ev.
-  - constructor; auto. intros [A|A]; simpl in A; [congruence|discriminate].
+  - constructor; auto. split; [intros [A|A]; simpl in A; [congruence|discriminate] | simpl; intros A; congruence].
 Qed.
 
-Lemma gen_ok_vd : forall i (p : fobj -> bool) (w : data -> data) l,
-  gen_ok i l -> gen_ok i (map (fun o => if p o then mkF (f_vn o) (f_dn o) (w (f_vd o)) (f_dd o) else o) l).
-Proof. intros i p w l H. apply gen_ok_map; auto; intros f _; destruct (p f); simpl; auto. Qed.
+Lemma gen_ok_vd : forall i n (w : data -> data) l, n <> FSnap i ->
+  gen_ok i l -> gen_ok i (map (fun o => if f_is (f_vn o) n then mkF (f_vn o) (f_dn o) (w (f_vd o)) (f_dd o) else o) l).
+Proof.
+  intros i n w l NE H. apply gen_ok_map; auto; intros f _; destruct (f_is (f_vn f) n) eqn:E; simpl; auto.
+  apply f_is_eq in E. intros [C1 C2]. split; simpl; auto. intros X. congruence.
+Qed.
 
 Lemma gen_ok_syncfile : forall i n l, n <> FSnap i -> Forall fK l -> gen_ok i l -> gen_ok i (fl_syncfile n l).
 Proof.
@@ -1380,7 +1400,7 @@ Proof.
   - intros f _ E. destruct (f_is (f_vn f) n); simpl; auto.
   - intros f _ E. destruct (f_is (f_vn f) n); simpl; auto.
   - intros f Hf C. destruct (f_is (f_vn f) n) eqn:E; auto.
-    apply f_is_eq in E. unfold cF. simpl. intros [A|A]; [congruence|].
+    apply f_is_eq in E. unfold cF. simpl. split; [|intros X; congruence]. intros [A|A]; [congruence|].
     rewrite Forall_forall in K. destruct (K f Hf _ A) as [B|[B|[k [B _]]]]; congruence.
 Qed.
 
@@ -1388,17 +1408,17 @@ Lemma gen_ok_syncdir : forall i l, gen_ok i l -> gen_ok i (fl_syncdir l).
 Proof.
   intros i l (Ed & Ev & F). unfold fl_syncdir. apply gen_ok_filter_alive. unfold gen_ok.
   rewrite !Exists_map_iff, !Forall_map_iff. simpl. repeat split; auto.
-  eapply Forall_impl_in; [exact F|]. intros f _ C. unfold cF in *. simpl. intros [A|A]; auto.
+  eapply Forall_impl_in; [exact F|]. intros f _ [C1 C2]. unfold cF in *. simpl. split; auto. intros [A|A]; auto.
 Qed.
 
 Lemma fK_write : forall n d l, Forall fK l -> Forall fK (fl_write n d l).
 Proof. intros. unfold fl_write. apply (fK_vd (fun o => f_is (f_vn o) n) (fun v => v ++ d)). auto. Qed.
 Lemma fK_writeat : forall n off d l, Forall fK l -> Forall fK (fl_writeat n off d l).
 Proof. intros. unfold fl_writeat. apply (fK_vd (fun o => f_is (f_vn o) n) (overwrite off d)). auto. Qed.
-Lemma gen_ok_write : forall i n d l, gen_ok i l -> gen_ok i (fl_write n d l).
-Proof. intros. unfold fl_write. apply (gen_ok_vd i (fun o => f_is (f_vn o) n) (fun v => v ++ d)). auto. Qed.
-Lemma gen_ok_writeat : forall i n off d l, gen_ok i l -> gen_ok i (fl_writeat n off d l).
-Proof. intros. unfold fl_writeat. apply (gen_ok_vd i (fun o => f_is (f_vn o) n) (overwrite off d)). auto. Qed.
+Lemma gen_ok_write : forall i n d l, n <> FSnap i -> gen_ok i l -> gen_ok i (fl_write n d l).
+Proof. intros. unfold fl_write. apply (gen_ok_vd i n (fun v => v ++ d)); auto. Qed.
+Lemma gen_ok_writeat : forall i n off d l, n <> FSnap i -> gen_ok i l -> gen_ok i (fl_writeat n off d l).
+Proof. intros. unfold fl_writeat. apply (gen_ok_vd i n (overwrite off d)); auto. Qed.
 Lemma Tr_write : forall f v w d fl, Tr f v w fl -> Tr f (v ++ d) w (fl_write f d fl).
 Proof. intros. unfold fl_write. apply (Tr_vd f v w (fun x => x ++ d)). auto. Qed.
 Lemma Tr_writeat : forall f v w off d fl, Tr f v w fl -> Tr f (overwrite off d v) w (fl_writeat f off d fl).
@@ -1416,7 +1436,7 @@ Lemma flag_fn_gen_ok : forall n i j fl, n <> FSnap j -> Forall fK fl -> gen_ok j
 Proof.
   intros n i j fl NE K H. unfold flag_fn. apply gen_ok_syncdir. apply gen_ok_syncfile; auto.
   - apply fK_write. apply fK_write. apply fK_create. exact K.
-  - apply gen_ok_write. apply gen_ok_write. apply gen_ok_create; auto.
+  - apply gen_ok_write; auto. apply gen_ok_write; auto. apply gen_ok_create; auto.
 Qed.
 
 Lemma flag_fn_fK : forall n i fl, Forall fK (flag_fn n i fl).
@@ -1486,9 +1506,10 @@ Qed.
 Lemma valid_writer : forall body, valid_snap (T_HDR :: body ++ [T_TAIL]) = true.
 Proof. intros. unfold valid_snap. rewrite last_last. reflexivity. Qed.
 
-Lemma writer_gen_ok : forall d i body fl, gen_ok i (apply_local (writer_fs d (FSnap i) body) fl).
+Lemma writer_gen_ok : forall d i body fl,
+  Vok (T_HDR :: body ++ [T_TAIL]) = true -> gen_ok i (apply_local (writer_fs d (FSnap i) body) fl).
 Proof.
-  intros. destruct (writer_Tr d (FSnap i) body fl) as [T D]. eapply gen_ok_of_Tr; eauto. apply valid_writer.
+  intros d i body fl HB. destruct (writer_Tr d (FSnap i) body fl) as [T D]. eapply gen_ok_of_Tr; eauto.
 Qed.
 
 Lemma static_local_tmp : forall d ops, is_tmp d = true -> Forall (local_to d) ops -> Forall static_ok (map OFs ops).
@@ -1504,10 +1525,10 @@ Lemma static_rmdir_tmp : forall d, is_tmp d = true -> Forall static_ok (rmdir_op
 Proof. intros d T. unfold rmdir_ops. repeat constructor; intros s; simpl; auto. destruct d; auto; discriminate. Qed.
 
 (* ---- Save ---- *)
-Lemma cmd_save_body : forall s i body t tr oc, J s ->
+Lemma cmd_save_body : forall s i body t tr oc, Vok (T_HDR :: body ++ [T_TAIL]) = true -> J s ->
   fin (exec s (save_ops_body i body)) = (t, tr, oc) -> allowed_run s tr /\ t = run s tr /\ J t.
 Proof.
-  intros [l r] i body t tr oc (G & HS & HG) H.
+  intros [l r] i body t tr oc HB (G & HS & HG) H.
   set (d := DGen i) in *.
   set (l1 := fs_syncroot (fs_mkdir d l)).
   assert (E : exec (mkS l r) (save_ops_body i body) =
@@ -1531,14 +1552,14 @@ Proof.
   - unfold DSynced. simpl. apply in_dir_dsynced. apply syncroot_dsynced.
   - unfold GenGood. simpl. unfold in_dir. rewrite Forall_map_iff. rewrite Forall_forall. intros o Ho.
     destruct (d_is (d_vn o) d) eqn:E2.
-    + apply d_is_eq in E2. simpl. intros j V. rewrite E2 in V. inversion V; subst j. apply (writer_gen_ok d).
+    + apply d_is_eq in E2. simpl. intros j V. rewrite E2 in V. inversion V; subst j. apply (writer_gen_ok d). exact HB.
     + apply d_is_neq in E2. apply mkdir_sync_in in Ho. destruct Ho as [V|[o0 [Ho0 ->]]]; [contradiction|].
       simpl. unfold GenGood in HG. simpl in HG. rewrite Forall_forall in HG. apply HG. exact Ho0.
 Qed.
 
 Lemma cmd_save : forall s i n t tr oc, J s ->
   fin (exec s (save_ops i n)) = (t, tr, oc) -> allowed_run s tr /\ t = run s tr /\ J t.
-Proof. intros s i n. unfold save_ops. apply cmd_save_body. Qed.
+Proof. intros s i n t tr oc. unfold save_ops. apply cmd_save_body. apply HV2. Qed.
 
 Lemma triple_eq : forall {A B C} (a a' : A) (b b' : B) (c c' : C),
   (a, b, c) = (a', b', c') -> a = a' /\ b = b' /\ c = c'.
@@ -1738,7 +1759,7 @@ Proof.
   - set (f := FSnap i).
     assert (T : Tr f [T_HDR; T_TAIL] [T_HDR; T_TAIL] (fl_syncfile f (fl_write f [T_HDR; T_TAIL] (fl_create f fl)))).
     { apply Tr_syncfile with (w := []). apply (Tr_write f [] [] [T_HDR; T_TAIL]). apply Tr_create. }
-    destruct (Tr_syncdir _ _ _ _ T) as [T2 D]. eapply gen_ok_of_Tr; eauto.
+    destruct (Tr_syncdir _ _ _ _ T) as [T2 D]. eapply gen_ok_of_Tr; eauto. apply (HV2 0%nat).
   - set (f := FSnap i). set (body := repeat T_BODY (N.to_nat (n - 2))).
     assert (T : Tr f [T_HDR] [] (fl_write f [T_HDR] (fl_create f fl))).
     { apply (Tr_write f [] [] [T_HDR]). apply Tr_create. }
@@ -1747,7 +1768,7 @@ Proof.
     + apply Tr_syncfile with (w := []).
       apply (Tr_write f (T_HDR :: body) [] [T_TAIL]). apply (Tr_write f [T_HDR] [] body). exact T2.
     + apply Db_syncfile. apply Db_write. apply Db_write. exact D.
-    + apply valid_writer.
+    + apply HV2.
 Qed.
 
 Lemma cmd_recv : forall s i n t tr oc, i <> 0 -> J s ->
@@ -1801,7 +1822,7 @@ Lemma shrink_ops_split : forall i, shrink_ops i =
   [OFs (FRenameFile (DFinal i) (FShrunk i) (FSnap i)); OFs (FSyncDir (DFinal i))].
 Proof. reflexivity. Qed.
 
-Lemma cmd_shrink : forall s i t tr oc, J s ->
+Lemma cmd_shrink : forall s i t tr oc, shrunk_ok -> J s ->
   (if st_rec s <? i then (s, [], Done)
    else match read_file (DFinal i) (FSnap i) (st_fs s) with
         | Some d => if valid_snap d then fin (exec s (shrink_ops i)) else (s, [], Panicked)
@@ -1809,7 +1830,7 @@ Lemma cmd_shrink : forall s i t tr oc, J s ->
         end) = (t, tr, oc) ->
   allowed_run s tr /\ t = run s tr /\ J t.
 Proof.
-  intros [l r] i t tr oc (G & HS & HG) H.
+  intros [l r] i t tr oc SOK (G & HS & HG) H.
   assert (TRIV : forall oc', (mkS l r, @nil op, oc') = (t, tr, oc) -> allowed_run (mkS l r) tr /\ t = run (mkS l r) tr /\ J t).
   { intros oc' X. inversion X; subst. simpl. repeat split; auto; apply G. }
   cbn [st_rec st_fs] in H. destruct (r <? i); [eapply TRIV; eauto|].
@@ -1827,11 +1848,11 @@ Proof.
   (* every directory named d now holds a complete, durable shrunk file *)
   assert (TRK : Forall (fun o => d_vn o = Some d ->
                   Exists (fun f => f_vn f = Some sh) (d_files o) /\
-                  Forall (fun f => f_vn f = Some sh -> valid_snap (f_dd f) = true) (d_files o)) l1).
+                  Forall (fun f => f_vn f = Some sh -> Vok (f_dd f) = true /\ f_vd f = f_dd f) (d_files o)) l1).
   { unfold l1, in_dir. rewrite Forall_map_iff. rewrite Forall_forall. intros o Ho.
     destruct (d_is (d_vn o) d) eqn:E2; simpl.
     - intros _. destruct (writer_Tr d sh [T_EMPTY] (d_files o)) as [[EX FA] _]. split; auto.
-      eapply Forall_impl_in; [exact FA|]. intros f _ P V. destruct (P V) as [_ ->]. apply valid_writer.
+      eapply Forall_impl_in; [exact FA|]. intros f _ P V. destruct (P V) as [-> ->]. split; [exact SOK | reflexivity].
     - intros V. apply d_is_neq in E2. contradiction. }
   assert (HF1 : has_file d sh l1 = true).
   { apply has_dir_in in HD1. destruct HD1 as [o [Ho V]]. apply has_file_in. exists o. repeat split; auto.
@@ -1947,16 +1968,16 @@ Proof. intros. unfold recv_file_fs. destruct (nch <=? 1); destruct b; simpl; rep
 
 (* one file received in nch chunks and fsynced at its last chunk: durable, full *)
 Lemma recv_file_done : forall d f nch fl,
-  exists v, valid_snap v = true /\
+  exists v, Vok v = true /\
     Tr f v v (apply_local (recv_file_fs d f nch true) fl) /\ Db f (apply_local (recv_file_fs d f nch true) fl).
 Proof.
   intros d f nch fl. unfold recv_file_fs. destruct (nch <=? 1); unfold apply_local; cbn [app fold_left local_fn].
-  - exists [T_HDR; T_TAIL]. split; [reflexivity|].
+  - exists [T_HDR; T_TAIL]. split; [apply (HV2 0%nat)|].
     assert (T : Tr f [T_HDR; T_TAIL] [T_HDR; T_TAIL] (fl_syncfile f (fl_write f [T_HDR; T_TAIL] (fl_create f fl)))).
     { apply Tr_syncfile with (w := []). apply (Tr_write f [] [] [T_HDR; T_TAIL]). apply Tr_create. }
     apply Tr_syncdir. exact T.
   - set (body := repeat T_BODY (N.to_nat (nch - 2))). exists (T_HDR :: body ++ [T_TAIL]).
-    split; [apply valid_writer|].
+    split; [apply HV2|].
     assert (T : Tr f [T_HDR] [] (fl_write f [T_HDR] (fl_create f fl))).
     { apply (Tr_write f [] [] [T_HDR]). apply Tr_create. }
     destruct (Tr_syncdir _ _ _ _ T) as [T2 D]. split.
@@ -2042,10 +2063,12 @@ Proof.
 Qed.
 
 (* ---- every command ---- *)
-Lemma cmd_ok : forall ord s c t tr oc, ord_ok ord -> J s ->
+Definition is_shrink (c : cmd) : Prop := match c with CShrink _ => True | _ => False end.
+
+Lemma cmd_ok : forall ord s c t tr oc, ord_ok ord -> (is_shrink c -> shrunk_ok) -> J s ->
   do_cmd ord s c = (t, tr, oc) -> allowed_run s tr /\ t = run s tr /\ J t.
 Proof.
-  intros ord s c t tr oc HO HJ H.
+  intros ord s c t tr oc HO HSK HJ H.
   assert (TRIV : forall oc', (s, @nil op, oc') = (t, tr, oc) -> allowed_run s tr /\ t = run s tr /\ J t).
   { intros oc' X. inversion X; subst. simpl. auto. }
   destruct c as [i n | i | i n | i n m | i | i | i | i | | ]; cbn [do_cmd] in H.
@@ -2055,7 +2078,7 @@ Proof.
   - destruct (i =? 0) eqn:E; [eapply TRIV; eauto|]. apply N.eqb_neq in E. eapply cmd_recvx; eauto.
   - eapply cmd_apply; eauto.
   - eapply cmd_record; eauto.
-  - eapply cmd_shrink; eauto.
+  - eapply cmd_shrink; eauto. apply HSK. exact I.
   - eapply cmd_compact; eauto.
   - eapply cmd_restart; eauto.
   - eapply cmd_crash; eauto.
@@ -2064,15 +2087,17 @@ Qed.
 Lemma J_init : J init.
 Proof. split; [apply good_init|]. split; constructor. Qed.
 
-Lemma cmds_ok : forall ord cs s t tr, ord_ok ord -> J s ->
+Lemma cmds_ok : forall ord cs s t tr, ord_ok ord -> (Exists is_shrink cs -> shrunk_ok) -> J s ->
   do_cmds ord s cs = (t, tr) -> allowed_run s tr /\ t = run s tr /\ J t.
 Proof.
-  intros ord cs. induction cs as [|c r IH]; intros s t tr HO HJ H; simpl in H.
+  intros ord cs. induction cs as [|c r IH]; intros s t tr HO HSK HJ H; simpl in H.
   - inversion H; subst. simpl. auto.
   - destruct (do_cmd ord s c) as [[s1 tr1] oc] eqn:E1. destruct (do_cmds ord s1 r) as [u tr2] eqn:E2.
     inversion H; subst t tr; clear H.
-    destruct (cmd_ok _ _ _ _ _ _ HO HJ E1) as (A1 & R1 & J1).
-    destruct (IH _ _ _ HO J1 E2) as (A2 & R2 & J2).
+    assert (K1 : is_shrink c -> shrunk_ok) by (intros X; apply HSK; apply Exists_cons_hd; exact X).
+    assert (K2 : Exists is_shrink r -> shrunk_ok) by (intros X; apply HSK; apply Exists_cons_tl; exact X).
+    destruct (cmd_ok _ _ _ _ _ _ HO K1 HJ E1) as (A1 & R1 & J1).
+    destruct (IH _ _ _ HO K2 J1 E2) as (A2 & R2 & J2).
     split; [apply allowed_run_app_i; auto; rewrite <- R1; exact A2|].
     split; auto. rewrite run_app, <- R1. exact R2.
 Qed.
@@ -2080,23 +2105,24 @@ Qed.
 (* ---------------------------------------------------------------------- *)
 (* the property, over every command sequence and every crash point *)
 
-Lemma trace_allowed : forall ord cs, ord_ok ord -> allowed_run init (snd (do_cmds ord init cs)).
+Lemma trace_allowed : forall ord cs, ord_ok ord -> (Exists is_shrink cs -> shrunk_ok) ->
+  allowed_run init (snd (do_cmds ord init cs)).
 Proof.
-  intros ord cs HO. destruct (do_cmds ord init cs) as [t tr] eqn:E. simpl.
-  destruct (cmds_ok ord cs init t tr HO J_init E) as (A & _ & _). exact A.
+  intros ord cs HO HSK. destruct (do_cmds ord init cs) as [t tr] eqn:E. simpl.
+  destruct (cmds_ok ord cs init t tr HO HSK J_init E) as (A & _ & _). exact A.
 Qed.
 
 Lemma recorded_implies_complete_proved : forall ord cs k,
-  ord_ok ord ->
+  ord_ok ord -> (Exists is_shrink cs -> shrunk_ok) ->
   let s := run init (firstn k (snd (do_cmds ord init cs))) in
   st_rec s <> 0 -> durable_complete s (st_rec s).
-Proof. intros ord cs k HO. apply guarded_recorded_implies_complete. apply trace_allowed. exact HO. Qed.
+Proof. intros ord cs k HO HSK. apply guarded_recorded_implies_complete. apply trace_allowed; auto. Qed.
 
 Lemma cleanup_yields_only_complete_proved : forall ord cs k,
-  ord_ok ord ->
+  ord_ok ord -> (Exists is_shrink cs -> shrunk_ok) ->
   let s := run init (firstn k (snd (do_cmds ord init cs))) in
   exists u tr, process_orphans ord (run s [OCrash]) = (u, tr, true) /\ cleanb u = true /\ st_rec u = st_rec s.
-Proof. intros ord cs k HO. apply guarded_cleanup; auto. apply trace_allowed. exact HO. Qed.
+Proof. intros ord cs k HO HSK. apply guarded_cleanup; auto. apply trace_allowed; auto. Qed.
 
 (* ---------------------------------------------------------------------- *)
 (* flag removal and the record *)
@@ -2203,14 +2229,14 @@ Qed.
 (* reading the recorded snapshot file after a crash *)
 Lemma read_after_crash : forall s i,
   Good s -> st_rec s = i -> i <> 0 ->
-  exists d, read_file (DFinal i) (FSnap i) (fs_crash (st_fs s)) = Some d /\ valid_snap d = true /\
+  exists d, read_file (DFinal i) (FSnap i) (fs_crash (st_fs s)) = Some d /\ Vok d = true /\
             (FullAt i s -> is_partial d = false).
 Proof.
   intros [l r] i [[HI HR] _] RE NZ. simpl in *. subst r.
   set (cands := flat_map (fun o => if d_is (d_vn o) (DFinal i)
                   then flat_map (fun x => if f_is (f_vn x) (FSnap i) then [f_vd x] else []) (d_files o)
                   else []) (fs_crash l)).
-  assert (ALL : Forall (fun d => valid_snap d = true /\ (FullAt i (mkS l i) -> is_partial d = false)) cands).
+  assert (ALL : Forall (fun d => Vok d = true /\ (FullAt i (mkS l i) -> is_partial d = false)) cands).
   { rewrite Forall_forall. intros v Hv. unfold cands in Hv. apply in_flat_map in Hv. destruct Hv as [o' [Ho' Hv]].
     unfold fs_crash in Ho'. apply in_map_iff in Ho'. destruct Ho' as [o [<- Ho]]. apply filter_In in Ho. destruct Ho as [Ho _].
     simpl in Hv. destruct (d_is (d_dn o) (DFinal i)) eqn:E; [|contradiction]. apply d_is_eq in E.
@@ -2242,7 +2268,7 @@ Lemma crash_full_or_synced : forall st v d i,
 Proof.
   intros st v d i G RE NZ H. unfold restart_okb, recorded_file. simpl.
   destruct st as [l r]. simpl in *. subst r.
-  destruct (read_after_crash (mkS l i) i G eq_refl NZ) as [x (RF & VS & FU)]. simpl in RF.
+  destruct (read_after_crash (mkS l i) i G eq_refl NZ) as [x (RF & VS & FU)]. simpl in RF. apply HV1 in VS.
   apply N.eqb_neq in NZ. rewrite NZ. simpl. rewrite RF, VS. simpl.
   destruct H as [H|H].
   - rewrite (FU H). reflexivity.
@@ -2263,12 +2289,12 @@ Proof.
 Qed.
 
 Lemma shrink_trace : forall s i t tr oc,
-  J s -> do_cmd (fun l => l) s (CShrink i) = (t, tr, oc) ->
+  shrunk_ok -> J s -> do_cmd (fun l => l) s (CShrink i) = (t, tr, oc) ->
   allowed_run s tr /\ ~ In OCrash tr /\ (forall k, st_rec (run s (firstn k tr)) = st_rec s).
 Proof.
-  intros s i t tr oc HJ H.
+  intros s i t tr oc SOK HJ H.
   assert (OK : ord_ok (fun l : list dname => l)) by (intros l; apply Permutation_refl).
-  destruct (cmd_ok _ _ _ _ _ _ OK HJ H) as (A & _ & _). split; auto.
+  destruct (cmd_ok _ _ _ _ _ _ OK (fun _ => SOK) HJ H) as (A & _ & _). split; auto.
   cbn [do_cmd] in H.
   assert (SUB : forall o, In o tr -> In o (shrink_ops i)).
   { destruct (st_rec s <? i); [inversion H; subst; intros o []|].
@@ -2288,15 +2314,15 @@ Lemma firstn_map_c : forall {A B} (g : A -> B) k l, firstn k (map g l) = map g (
 Proof. induction k as [|k IH]; intros [|x r]; simpl; auto. rewrite IH. reflexivity. Qed.
 
 Lemma ondisk_recover_restartable_proved : forall s i load k,
-  J (ds_st s) -> st_rec (ds_st s) = i -> i <> 0 ->
+  shrunk_ok -> J (ds_st s) -> st_rec (ds_st s) = i -> i <> 0 ->
   (FullAt i (ds_st s) \/ i <= ds_smd s) ->
   (load = false -> i <= ds_smv s) ->
   let '(_, tr, _) := recover_prog s i load in
   restart_okb (dstep (drun s (firstn k tr)) (DBase OCrash)) = true.
 Proof.
-  intros [st v d] i load k HJ RE NZ H3 HV. simpl in *. unfold recover_prog. cbn [ds_st].
+  intros [st v d] i load k SOK HJ RE NZ H3 HV. simpl in *. unfold recover_prog. cbn [ds_st].
   destruct (do_cmd (fun l => l) st (CShrink i)) as [[t shr] oc] eqn:E.
-  destruct (shrink_trace _ _ _ _ _ HJ E) as (A & NC & RR).
+  destruct (shrink_trace _ _ _ _ _ SOK HJ E) as (A & NC & RR).
   rewrite recover_tail_order.
   set (pre := if load then [DSmRecover i] else []).
   set (s1 := drun (mkDS st v d) pre).
@@ -2412,12 +2438,12 @@ Lemma restart_ok_norec : forall s, st_rec (ds_st s) = 0 -> restart_okb (dstep s 
 Proof. intros [[l r] v d] H. simpl in *. subst r. reflexivity. Qed.
 
 Lemma ondisk_save_restartable_proved : forall s lr ap k,
-  J (ds_st s) ->
+  dummy_ok -> J (ds_st s) ->
   (st_rec (ds_st s) = 0 \/ FullAt (st_rec (ds_st s)) (ds_st s) \/ st_rec (ds_st s) <= ds_smd s) ->
   let '(_, tr, _) := cmd_save_ondisk s lr ap in
   restart_okb (dstep (drun s (firstn k tr)) (DBase OCrash)) = true.
 Proof.
-  intros [st v d] lr ap k HJ H0. cbn [ds_st ds_smd ds_smv] in *.
+  intros [st v d] lr ap k DOK HJ H0. cbn [ds_st ds_smd ds_smv] in *.
   assert (BASE : restart_okb (dstep (mkDS st v d) (DBase OCrash)) = true).
   { destruct H0 as [Z|H0]; [apply restart_ok_norec; exact Z|].
     destruct (N.eq_dec (st_rec st) 0) as [Z|NZ]; [apply restart_ok_norec; exact Z|].
@@ -2429,7 +2455,7 @@ Proof.
   apply N.eqb_eq in P3. subst v. apply N.ltb_lt in P2.
   destruct (exec st (save_ops_body ap [T_DUMMY])) as [[st1 tr1] ok1] eqn:E1.
   assert (S1 : allowed_run st tr1 /\ st1 = run st tr1 /\ J st1).
-  { apply (cmd_save_body st ap [T_DUMMY] st1 tr1 (if ok1 then Done else Failed)); auto. rewrite E1. reflexivity. }
+  { apply (cmd_save_body st ap [T_DUMMY] st1 tr1 (if ok1 then Done else Failed)); auto; try exact DOK. rewrite E1. reflexivity. }
   destruct S1 as (A1 & R1 & J1).
   assert (OK : ord_ok (fun l : list dname => l)) by (intros l; apply Permutation_refl).
   set (c2 := if ok1 then do_cmd (fun l => l) st1 (CCommit ap) else (st1, [], Failed)).
@@ -2437,7 +2463,7 @@ Proof.
                (forall o, In o tr2 -> In o (commit_all_ops ap))).
   { unfold c2. destruct ok1.
     - destruct (do_cmd (fun l => l) st1 (CCommit ap)) as [[st2 tr2] oc2] eqn:E2. exists st2, tr2, oc2.
-      destruct (cmd_ok _ _ _ _ _ _ OK J1 E2) as (A & R & JJ).
+      destruct (cmd_ok _ _ _ _ _ _ OK (fun X : is_shrink (CCommit ap) => match X with end) J1 E2) as (A & R & JJ).
       split; [reflexivity|]. split; [exact A|]. split; [exact R|]. split; [exact JJ|].
       eapply commit_trace_sub; eauto.
     - exists st1, [], Failed.
@@ -2453,7 +2479,7 @@ Proof.
     { exists st2, [], Done. split; [reflexivity|]. split; [exact I|]. intros o []. }
     unfold c3. destruct oc2; auto. destruct (negb (lr =? 0) && (lr <? ap)); auto.
     destruct (do_cmd (fun l => l) st2 (CCompact lr)) as [[st3 tr3] oc3] eqn:E3. exists st3, tr3, oc3.
-    destruct (cmd_ok _ _ _ _ _ _ OK J2 E3) as (A & _ & _).
+    destruct (cmd_ok _ _ _ _ _ _ OK (fun X : is_shrink (CCompact lr) => match X with end) J2 E3) as (A & _ & _).
     split; [reflexivity|]. split; [exact A|]. eapply compact_trace_sub; eauto. }
   destruct S3 as [st3 [tr3 [oc3 (E3 & A3 & SUB3)]]]. rewrite E3.
   rewrite ondisk_save_syncs_fact. cbn [app].
@@ -2528,3 +2554,151 @@ Proof.
   assert (L2 : printed_len 10 0 id <=? 18446744073709551616 = true) by (apply N.leb_le; lia).
   rewrite L1, L2. repeat split; reflexivity.
 Qed.
+
+(* ---------------------------------------------------------------------- *)
+(* what a restart reads: the recorded snapshot file as the process sees it *)
+
+Lemma read_recorded : forall s,
+  Good s -> st_rec s <> 0 ->
+  exists d, read_file (DFinal (st_rec s)) (FSnap (st_rec s)) (st_fs s) = Some d /\ Vok d = true.
+Proof.
+  intros [l i] [[HI HR] _] NZ. simpl in *.
+  set (cands := flat_map (fun o => if d_is (d_vn o) (DFinal i)
+                  then flat_map (fun x => if f_is (f_vn x) (FSnap i) then [f_vd x] else []) (d_files o)
+                  else []) l).
+  assert (ALL : Forall (fun d => Vok d = true) cands).
+  { rewrite Forall_forall. intros v Hv. unfold cands in Hv. apply in_flat_map in Hv. destruct Hv as [o [Ho Hv]].
+    destruct (d_is (d_vn o) (DFinal i)) eqn:E; [|contradiction]. apply d_is_eq in E.
+    apply in_flat_map in Hv. destruct Hv as [f [Hf Hv]].
+    destruct (f_is (f_vn f) (FSnap i)) eqn:E2; [|contradiction]. apply f_is_eq in E2. destruct Hv as [<-|[]].
+    rewrite Forall_forall in HI. destruct (HI o Ho) as (_ & _ & GD). destruct (GD i (or_introl E)) as (_ & _ & F & _).
+    rewrite Forall_forall in F. destruct (F f Hf) as [F1 F2]. rewrite (F2 E2). apply F1. auto. }
+  assert (NE : cands <> []).
+  { unfold recorded_dir in HR. simpl in HR. specialize (HR NZ). rewrite Exists_exists in HR. destruct HR as [o [Ho [V D]]].
+    rewrite Forall_forall in HI. destruct (HI o Ho) as (_ & _ & GD). destruct (GD i (or_introl V)) as (_ & Ev & _).
+    rewrite Exists_exists in Ev. destruct Ev as [f [Hf P]]. intro X.
+    assert (I : In (f_vd f) cands).
+    { unfold cands. apply in_flat_map. exists o. split; auto. apply d_is_eq in V. rewrite V.
+      apply in_flat_map. exists f. split; auto. apply f_is_eq in P. rewrite P. left. reflexivity. }
+    rewrite X in I. contradiction. }
+  rewrite read_file_hd. fold cands. destruct cands as [|d ds]; [contradiction|]. exists d. simpl.
+  inversion ALL; subst. auto.
+Qed.
+
+(* after any crash cut of any command sequence and the start-up cleanup, the
+   recorded snapshot file read by the restarting replica is complete *)
+Lemma restart_reads_recorded : forall ord cs k,
+  ord_ok ord -> (Exists is_shrink cs -> shrunk_ok) ->
+  let s := run init (firstn k (snd (do_cmds ord init cs))) in
+  exists u tr, process_orphans ord (run s [OCrash]) = (u, tr, true) /\ st_rec u = st_rec s /\
+    (st_rec s <> 0 ->
+     exists d, read_file (DFinal (st_rec u)) (FSnap (st_rec u)) (st_fs u) = Some d /\ Vok d = true).
+Proof.
+  intros ord cs k HO HSK s.
+  assert (G : Good s).
+  { apply run_good; [apply good_init|]. apply allowed_run_firstn. apply trace_allowed; auto. }
+  destruct (cleanup_after_crash ord s HO G) as [u [tr (P1 & _ & GU & P4)]].
+  exists u, tr. split; auto. split; auto. intros NZ. apply read_recorded; auto. congruence.
+Qed.
+
+End Validity.
+
+(* ---------------------------------------------------------------------- *)
+(* instance 1: any complete file (shrunk and metadata-only ones included) *)
+
+Lemma vs_hv1 : forall d, valid_snap d = true -> valid_snap d = true.
+Proof. auto. Qed.
+Lemma vs_hv2 : forall n, valid_snap (T_HDR :: repeat T_BODY n ++ [T_TAIL]) = true.
+Proof. intros. apply valid_writer. Qed.
+Lemma vs_shrunk : shrunk_ok valid_snap.
+Proof. reflexivity. Qed.
+Lemma vs_dummy : dummy_ok valid_snap.
+Proof. reflexivity. Qed.
+
+(* instance 2: complete files that carry the state machine's image *)
+Lemma fs_hv1 : forall d, full_snap d = true -> valid_snap d = true.
+Proof. intros d H. unfold full_snap in H. apply andb_true_iff in H. tauto. Qed.
+
+Lemma fs_hv2 : forall n, full_snap (T_HDR :: repeat T_BODY n ++ [T_TAIL]) = true.
+Proof.
+  intros n. unfold full_snap. rewrite valid_writer. simpl.
+  destruct n as [|[|[|n]]]; reflexivity.
+Qed.
+
+(* a regular state machine comes back at the recorded (= acknowledged) snapshot *)
+Lemma restart_state_ge_recorded_proved : forall ord cs k sv sd,
+  ord_ok ord -> ~ Exists is_shrink cs ->
+  let s := run init (firstn k (snd (do_cmds ord init cs))) in
+  exists u tr, process_orphans ord (run s [OCrash]) = (u, tr, true) /\ st_rec u = st_rec s /\
+    exists t ops, init_recover_reg (mkDS u sv sd) = (t, ops, Done) /\
+                  ds_st t = u /\ (st_rec s <> 0 -> ds_smv t = st_rec s).
+Proof.
+  intros ord cs k sv sd HO NS s.
+  destruct (restart_reads_recorded full_snap fs_hv1 fs_hv2 ord cs k HO (fun X => match NS X with end))
+    as [u [tr (P1 & P2 & P3)]]. fold s in P1, P2, P3.
+  exists u, tr. split; auto. split; auto. unfold init_recover_reg, recorded_file. cbn [ds_st].
+  destruct (st_rec u =? 0) eqn:Z.
+  - apply N.eqb_eq in Z. exists (mkDS u sv sd), []. repeat split; auto. intros NZ. congruence.
+  - apply N.eqb_neq in Z. assert (NZ : st_rec s <> 0) by congruence.
+    destruct (P3 NZ) as [d [RF FU]]. rewrite RF, FU.
+    eexists. eexists. split; [reflexivity|]. split; [reflexivity|]. intros _. simpl. exact P2.
+Qed.
+
+(* ---------------------------------------------------------------------- *)
+(* the statements of Props/C16.v, for the two instances *)
+
+Local Hint Resolve vs_hv1 vs_hv2 vs_shrunk vs_dummy fs_hv1 fs_hv2 : c16.
+
+Lemma recorded_implies_complete_vs : forall ord cs k,
+  ord_ok ord ->
+  let s := run init (firstn k (snd (do_cmds ord init cs))) in
+  st_rec s <> 0 -> durable_complete s (st_rec s).
+Proof. intros ord cs k HO. apply (recorded_implies_complete_proved valid_snap); auto with c16. Qed.
+
+Lemma cleanup_yields_only_complete_vs : forall ord cs k,
+  ord_ok ord ->
+  let s := run init (firstn k (snd (do_cmds ord init cs))) in
+  exists u tr, process_orphans ord (run s [OCrash]) = (u, tr, true) /\ cleanb u = true /\ st_rec u = st_rec s.
+Proof. intros ord cs k HO. apply (cleanup_yields_only_complete_proved valid_snap); auto with c16. Qed.
+
+Lemma guarded_recorded_implies_complete_vs : forall ops k,
+  allowed_run valid_snap init ops ->
+  let s := run init (firstn k ops) in st_rec s <> 0 -> durable_complete s (st_rec s).
+Proof. intros ops k. apply (guarded_recorded_implies_complete valid_snap); auto with c16. Qed.
+
+Lemma trace_allowed_vs : forall ord cs, ord_ok ord -> allowed_run valid_snap init (snd (do_cmds ord init cs)).
+Proof. intros ord cs HO. apply (trace_allowed valid_snap); auto with c16. Qed.
+
+Lemma step_inv_vs : forall s o t, Inv valid_snap s -> allowed valid_snap s o -> step s o = Some t -> Inv valid_snap t.
+Proof. apply step_inv. Qed.
+
+Lemma ondisk_recover_restartable_vs : forall s i load k,
+  J valid_snap (ds_st s) -> st_rec (ds_st s) = i -> i <> 0 ->
+  (FullAt i (ds_st s) \/ i <= ds_smd s) ->
+  (load = false -> i <= ds_smv s) ->
+  let '(_, tr, _) := recover_prog s i load in
+  restart_okb (dstep (drun s (firstn k tr)) (DBase OCrash)) = true.
+Proof. intros s i load k. apply (ondisk_recover_restartable_proved valid_snap); auto with c16. Qed.
+
+Lemma received_files_durable_vs : forall i n m fl,
+  let fl' := apply_local (recvx_fs i n m) fl in
+  durable_full (FSnap i) fl' /\ durable_full (FOther 1) fl'.
+Proof. intros i n m fl. apply (received_files_durable_proved valid_snap); auto with c16. Qed.
+
+Lemma ondisk_save_restartable_vs : forall s lr ap k,
+  J valid_snap (ds_st s) ->
+  (st_rec (ds_st s) = 0 \/ FullAt (st_rec (ds_st s)) (ds_st s) \/ st_rec (ds_st s) <= ds_smd s) ->
+  let '(_, tr, _) := cmd_save_ondisk s lr ap in
+  restart_okb (dstep (drun s (firstn k tr)) (DBase OCrash)) = true.
+Proof. intros s lr ap k. apply (ondisk_save_restartable_proved valid_snap); auto with c16. Qed.
+
+Lemma cmds_ok_vs : forall ord cs s t tr,
+  ord_ok ord -> J valid_snap s -> do_cmds ord s cs = (t, tr) ->
+  allowed_run valid_snap s tr /\ t = run s tr /\ J valid_snap t.
+Proof. intros ord cs s t tr HO. apply (cmds_ok valid_snap); auto with c16. Qed.
+
+(* for command sequences without Shrink every recorded snapshot file carries the image *)
+Lemma cmds_ok_fs : forall ord cs s t tr,
+  ord_ok ord -> ~ Exists is_shrink cs -> J full_snap s -> do_cmds ord s cs = (t, tr) ->
+  allowed_run full_snap s tr /\ t = run s tr /\ J full_snap t.
+Proof. intros ord cs s t tr HO NS. apply (cmds_ok full_snap); auto with c16. intros X. destruct (NS X). Qed.
